@@ -359,3 +359,44 @@ Proof.
   - repeat constructor; cbn; try reflexivity; intros _; reflexivity.
   - intros _. left. vm_compute. reflexivity.
 Qed.
+
+(* ---- the shipped prefixes are routed to their own class BY THE REAL CODE (regenerated getCategory answers in sample_table) ---- *)
+Definition real_cat (k : kbytes) : option (N * bool) :=
+  match find (fun e => keq (fst (fst e)) k) sample_table with Some e => Some (snd (fst e), snd e) | None => None end.
+Definition real_class_is (cat : N) (sh : bool) (p : kbytes) : bool :=
+  match real_cat p, real_cat (p ++ [52; 50]%N) with       (* the prefix itself and prefix ++ "42" *)
+  | Some (c1, s1), Some (c2, s2) => N.eqb c1 cat && N.eqb c2 cat && Bool.eqb s1 sh && Bool.eqb s2 sh
+  | _, _ => false
+  end.
+Lemma shipped_prefixes_real_class :
+  forallb (real_class_is CatShared true) SharedPrefixes = true /\
+  forallb (real_class_is CatSharedPersistent false) SharedPersistentPrefixes = true /\
+  forallb (real_class_is CatPersistent false) PersistentPrefixes = true /\
+  forallb (real_class_is CatRuntime false) (filter (fun r => negb (has_prefix (SharedPrefixes ++ SharedPersistentPrefixes ++ PersistentPrefixes) r)) RuntimePrefixes) = true.
+Proof. split; [|split; [|split]]; vm_compute; reflexivity. Qed.
+
+(* the documented runtime prefixes are never MORE specific than a configured class prefix: whenever a class prefix and a runtime prefix
+   both match a key, the runtime prefix is a prefix of the class prefix — "most specific prefix wins" is what getCategory computes
+   (e.g. tunnox:runtime:conncode:* is shared although tunnox:runtime: is a documented runtime prefix) *)
+Definition class_prefixes : list kbytes := SharedPersistentPrefixes ++ SharedPrefixes ++ PersistentPrefixes.
+Lemma runtime_prefixes_less_specific :
+  forallb (fun r => forallb (fun p => negb (is_prefix p r)) class_prefixes) RuntimePrefixes = true.
+Proof. vm_compute. reflexivity. Qed.
+
+Lemma most_specific_prefix_wins k p r :
+  In p class_prefixes -> In r RuntimePrefixes -> is_prefix p k = true -> is_prefix r k = true ->
+  is_prefix r p = true /\ category GenTables k <> CRuntime.
+Proof.
+  intros Hp Hr Hpk Hrk. split.
+  - destruct (prefix_chain p r k Hpk Hrk) as [H|H]; [|exact H]. exfalso.
+    pose proof runtime_prefixes_less_specific as Hs. rewrite forallb_forall in Hs. specialize (Hs r Hr).
+    rewrite forallb_forall in Hs. specialize (Hs p Hp). rewrite H in Hs. discriminate.
+  - unfold category, class_prefixes in *. cbn [t_sp t_shared t_pers GenTables].
+    assert (Hex : forall tbl, In p tbl -> has_prefix tbl k = true).
+    { intros tbl Hin. unfold has_prefix. apply existsb_exists. exists p. auto. }
+    apply in_app_or in Hp. destruct Hp as [Hp|Hp]; [rewrite (Hex _ Hp); discriminate|].
+    apply in_app_or in Hp. destruct Hp as [Hp|Hp].
+    + destruct (has_prefix SharedPersistentPrefixes k); [discriminate|]. rewrite (Hex _ Hp). discriminate.
+    + destruct (has_prefix SharedPersistentPrefixes k); [discriminate|]. destruct (has_prefix SharedPrefixes k); [discriminate|].
+      rewrite (Hex _ Hp). discriminate.
+Qed.
